@@ -328,7 +328,11 @@ def do_binop(xobj, xm, op, d, live, what="binop", protect=True, inexact=False):
         ytot = ys if yn is None else ys + yn
         want = xm.total + ytot if op == "+" else ((ytot - xm.total) if refl else (xm.total - ytot))
         got = r.signal if r.noise is None else r.signal + r.noise
-        check(np.allclose(got, np.broadcast_to(want, got.shape), rtol=1e-9, atol=1e-9, equal_nan=True), "total-field-mismatch", what)
+        # (rounding is relative to the size of the terms, not of their sum: signal and noise may cancel)
+        with np.errstate(all="ignore"):
+            mag = max([float(np.nanmax(np.abs(v_))) for v_ in (xm.s, xm.n, ys, yn) if v_ is not None and np.size(v_)] + [1.0])
+        mag = mag if np.isfinite(mag) else 1.0
+        check(np.allclose(got, np.broadcast_to(want, got.shape), rtol=1e-9, atol=1e-9 * mag, equal_nan=True), "total-field-mismatch", what)
     else:
         rm = Model(xm.cls, xm.npol, r.signal.copy(), None if r.noise is None else r.noise.copy())
     for gg in live:
